@@ -246,6 +246,14 @@ def cli_workspace(ctx, grog, rng, w, nontrivial, stats):
             nontrivial.add((G_key(req), q["k"], q.get("t"), q.get("v"), tuple(q.get("files", ()))))
     if not m.get("ok") or any(o is not None and o != mo for o, mo in zip(outs, m.get("out", []))):
         bad.append((req, {"ok": True, "out": outs}, m))
+    # determinism: the graph is rebuilt from Go maps on every invocation; the same query must print the same lines
+    for (args, cwd), first in list(zip(clis, outs))[:4]:
+        for _ in range(2):
+            rc, lines, err, dt = G.run_grog(grog, args, os.path.join(ws, cwd), env, timeout=60)
+            stats["commands"] += 1
+            if first is not None and lines != first:
+                ctx.violation("the same query prints different lines on different runs", {"kind": "oracle", "oracle": "determinism", "cli": args, "cwd": cwd,
+                              "first": first, "again": lines, "request": req}, signature="query-nondeterministic")
     # inverse over the CLI (type=all, no tag filters): a in deps -t b  <=>  b in rdeps -t a
     if len(nodes) <= 8:
         base = ["--target-type=all", "--all-platforms"]
@@ -268,6 +276,7 @@ def cli_history(ctx, grog, rng, hcase, stats):
     nodes, es = G.gen_attr_graph(rng, rng.randint(4, 9), plat_p=0.0)
     for n in nodes:
         n["bin"] = False
+        n["tags"] = [t for t in n["tags"] if t != "no-cache"]   # a no-cache target re-executes in every build by design (C13)
         if n["name"].endswith("test") or n["name"] == "tests":
             n["name"] = n["name"].replace("test", "tgt")     # `grog build` builds non-test targets only
     scratch = ctx.scratch(f"hist{hcase}")
